@@ -10,3 +10,4 @@ import JaxVerif.Properties.C04
 #print axioms JV.C04_check_restores
 #print axioms JV.C04_seq_idempotent
 #print axioms JV.C04_pytree_idempotent
+#print axioms JV.C04_source_pytree_rollback
